@@ -6,8 +6,17 @@
 (* Trace events (ndjson, in the order of the recorder's single mutex):     *)
 (*   Reset(sc, http1, res, hdr)  a new scenario starts; the resource tag    *)
 (*                               and custom header values it configures     *)
+(*   Built(inert)                the emitter the scenario configured was   *)
+(*                               built; inert: the build failed (counted   *)
+(*                               in configuration_failed): nothing is      *)
+(*                               accepted, everything emitted is discarded *)
 (*   Emit(id, sig)               the harness is about to emit event id,    *)
 (*                               which qualifies for signal sig            *)
+(*   EmitBurst(lo, hi, sig)      ... events lo..hi, one after the other    *)
+(*   Trunc(sig, n)               the signal's queue_full_truncated counter *)
+(*                               was seen to have risen by n: n times the  *)
+(*                               channel was full and dropped what was     *)
+(*                               pending (at most Capacity events each)    *)
 (*   Connect(ep, conn)           the collector accepted a connection       *)
 (*   Req(ep, sig, conn, known, ids, dec, ack, bad)                         *)
 (*                               the collector decided a request (logged   *)
@@ -26,17 +35,27 @@ EXTENDS Naturals, Sequences, FiniteSets, TLC, Json, IOUtils
 
 CONSTANT StreakK      \* SignalsIndependent: consecutive failures of one signal after which
                       \* the other, healthy signals must have been delivered
+CONSTANT Capacity     \* events a signal's channel holds before it truncates
 
 Rec == ndJsonDeserialize(IOEnv.TRACE)
 
 Sigs == {"logs", "traces", "metrics"}
 NoPend == [st |-> "none", ids |-> {}]
 
-VARIABLES l, sc, http1, wantRes, wantHdr, emitted, sigOf, acked, dirty, pend, broken, conns, streak,
-          failedEver, verdicts
+VARIABLES l, sc, http1, wantRes, wantHdr, emitted, emBy, ack1, ack2, dirty, pend, broken, conns, streak,
+          failedEver, verdicts,
+          \* (emBy[s]: the accepted events that qualify for signal s; ack1 / ack2: the events
+          \*  contained in at least one / at least two acknowledged requests - sets rather than
+          \*  functions, so that bursts of thousands of events stay cheap)
+          inert,      \* the emitter's build failed: it accepts nothing
+          discarded,  \* events emitted to an inert emitter (never accepted)
+          covered,    \* accepted events a counted truncation may have dropped: those not yet
+                      \* acknowledged when the counter was seen to rise
+          budget      \* per signal: Capacity x counted truncations
 
-vars == <<l, sc, http1, wantRes, wantHdr, emitted, sigOf, acked, dirty, pend, broken, conns, streak,
-          failedEver, verdicts>>
+vars == <<l, sc, http1, wantRes, wantHdr, emitted, emBy, ack1, ack2, dirty, pend, broken, conns, streak,
+          failedEver, verdicts, inert, discarded, covered, budget>>
+accept == <<inert, discarded, covered, budget>>
 
 E == Rec[l]
 IsEv(name) == l <= Len(Rec) /\ E.ev = name
@@ -45,7 +64,7 @@ Flag(ok, name) == IF ok THEN <<>> ELSE <<[sc |-> sc, at |-> l, clause |-> name]>
 
 Init ==
     /\ l = 1 /\ sc = 0 /\ http1 = TRUE /\ wantRes = "" /\ wantHdr = ""
-    /\ emitted = {} /\ sigOf = <<>> /\ acked = <<>>
+    /\ emitted = {} /\ emBy = [s \in Sigs |-> {}] /\ ack1 = {} /\ ack2 = {}
     /\ dirty = FALSE
     /\ pend = [s \in Sigs |-> NoPend]
     /\ broken = [s \in Sigs |-> 0]
@@ -53,11 +72,12 @@ Init ==
     /\ streak = [s \in Sigs |-> 0]
     /\ failedEver = [s \in Sigs |-> FALSE]
     /\ verdicts = <<>>
+    /\ inert = FALSE /\ discarded = {} /\ covered = {} /\ budget = [s \in Sigs |-> 0]
 
 Reset ==
     /\ IsEv("Reset")
     /\ sc' = E.sc /\ http1' = E.http1 /\ wantRes' = E.res /\ wantHdr' = E.hdr
-    /\ emitted' = {} /\ sigOf' = <<>> /\ acked' = <<>>
+    /\ emitted' = {} /\ emBy' = [s \in Sigs |-> {}] /\ ack1' = {} /\ ack2' = {}
     /\ dirty' = FALSE
     /\ pend' = [s \in Sigs |-> NoPend]
     /\ broken' = [s \in Sigs |-> 0]
@@ -65,23 +85,56 @@ Reset ==
     /\ streak' = [s \in Sigs |-> 0]
     /\ failedEver' = [s \in Sigs |-> FALSE]
     /\ verdicts' = verdicts
+    /\ inert' = FALSE /\ discarded' = {} /\ covered' = {} /\ budget' = [s \in Sigs |-> 0]
     /\ l' = l + 1
 
+\* OtlpBuilder::spawn returned: an emitter whose configuration was refused accepts nothing
+Built ==
+    /\ IsEv("Built")
+    /\ inert' = E.inert
+    /\ l' = l + 1
+    /\ UNCHANGED <<sc, http1, wantRes, wantHdr, emitted, emBy, ack1, ack2, dirty, pend, broken, conns, streak,
+                   failedEver, verdicts, discarded, covered, budget>>
+
+\* `emitted` holds the ACCEPTED events: what an inert emitter is given is discarded
 EmitEv ==
     /\ IsEv("Emit")
-    /\ emitted' = emitted \cup {E.id}
-    /\ sigOf' = (E.id :> E.sig) @@ sigOf
-    /\ acked' = (E.id :> 0) @@ acked
-    /\ verdicts' = verdicts \o Flag(E.id \notin emitted, "TraceIdsUnique")
+    /\ emitted' = IF inert THEN emitted ELSE emitted \cup {E.id}
+    /\ discarded' = IF inert THEN discarded \cup {E.id} ELSE discarded
+    /\ emBy' = IF inert THEN emBy ELSE [emBy EXCEPT ![E.sig] = @ \cup {E.id}]
+    /\ UNCHANGED <<ack1, ack2>>
+    /\ verdicts' = verdicts \o Flag(E.id \notin emitted \cup discarded, "TraceIdsUnique")
     /\ l' = l + 1
-    /\ UNCHANGED <<sc, http1, wantRes, wantHdr, dirty, pend, broken, conns, streak, failedEver>>
+    /\ UNCHANGED <<sc, http1, wantRes, wantHdr, dirty, pend, broken, conns, streak, failedEver, inert, covered, budget>>
+
+EmitBurst ==
+    /\ IsEv("EmitBurst")
+    /\ LET ids == E.lo..E.hi IN
+       /\ emitted' = IF inert THEN emitted ELSE emitted \cup ids
+       /\ discarded' = IF inert THEN discarded \cup ids ELSE discarded
+       /\ emBy' = IF inert THEN emBy ELSE [emBy EXCEPT ![E.sig] = @ \cup ids]
+       /\ UNCHANGED <<ack1, ack2>>
+       /\ verdicts' = verdicts \o Flag(ids \cap (emitted \cup discarded) = {}, "TraceIdsUnique")
+    /\ l' = l + 1
+    /\ UNCHANGED <<sc, http1, wantRes, wantHdr, dirty, pend, broken, conns, streak, failedEver, inert, covered, budget>>
+
+\* a counted overflow: what was pending (accepted, in no acknowledged request so far) may be
+\* gone, at most Capacity events per truncation
+Trunc ==
+    /\ IsEv("Trunc")
+    /\ covered' = covered \cup (emBy[E.sig] \ ack1)
+    /\ budget' = [budget EXCEPT ![E.sig] = @ + E.n * Capacity]
+    /\ l' = l + 1
+    /\ UNCHANGED <<sc, http1, wantRes, wantHdr, emitted, emBy, ack1, ack2, dirty, pend, broken, conns, streak,
+                   failedEver, verdicts, inert, discarded>>
 
 Connect ==
     /\ IsEv("Connect")
     /\ conns' = conns \cup {<<E.ep, E.conn>>}
     /\ verdicts' = verdicts \o Flag(\A c \in conns : c[2] # E.conn, "ConnIdsFresh")
     /\ l' = l + 1
-    /\ UNCHANGED <<sc, http1, wantRes, wantHdr, emitted, sigOf, acked, dirty, pend, broken, streak, failedEver>>
+    /\ UNCHANGED <<sc, http1, wantRes, wantHdr, emitted, emBy, ack1, ack2, dirty, pend, broken, streak, failedEver>>
+    /\ UNCHANGED accept
 
 Req ==
     /\ IsEv("Req")
@@ -91,7 +144,7 @@ Req ==
            WellFormed == ~E.bad /\ (E.known => E.sig = ep)
            NoDupInRequest == Cardinality(idset) = Len(E.ids)
            \* only events that were emitted, and only through the signal they qualify for
-           OnlyEmitted == idset \subseteq emitted /\ \A i \in idset \cap emitted : sigOf[i] = ep
+           OnlyEmitted == idset \subseteq emBy[ep]
            \* the request that follows a failed one carries the same events
            ResendSame == (E.known /\ pend[ep].st = "ids") => idset = pend[ep].ids
            \* a broken connection is replaced by a fresh one
@@ -110,11 +163,11 @@ Req ==
            \* an outage of one signal's endpoint does not stop the others
            SignalsIndependent ==
                nstreak = StreakK =>
-                   \A i \in emitted : (sigOf[i] # ep /\ ~failedEver[sigOf[i]]) => acked[i] >= 1
+                   \A s \in Sigs \ {ep} : ~failedEver[s] => emBy[s] \subseteq ack1
        IN
-       /\ acked' = IF isAck
-                   THEN [i \in DOMAIN acked |-> IF i \in idset THEN acked[i] + 1 ELSE acked[i]]
-                   ELSE acked
+       \* (only accepted events count; anything else in a request is flagged by OnlyEmitted)
+       /\ ack1' = IF isAck THEN ack1 \cup (idset \cap emitted) ELSE ack1
+       /\ ack2' = IF isAck THEN ack2 \cup (idset \cap ack1) ELSE ack2
        /\ dirty' = (dirty \/ ~isAck)
        /\ pend' = [pend EXCEPT ![ep] = IF isAck THEN NoPend
                                         ELSE IF E.known THEN [st |-> "ids", ids |-> idset]
@@ -132,15 +185,22 @@ Req ==
                                \o Flag(HeadersCarried, "HeadersCarried")
                                \o Flag(SignalsIndependent, "SignalsIndependent")
     /\ l' = l + 1
-    /\ UNCHANGED <<sc, http1, wantRes, wantHdr, emitted, sigOf, conns>>
+    /\ UNCHANGED <<sc, http1, wantRes, wantHdr, emitted, emBy, conns>>
+    /\ UNCHANGED accept
 
 Flush ==
     /\ IsEv("Flush")
-    /\ LET \* flush reports success only after every event emitted before was acknowledged
-           AtLeastOnce == E.ok => \A i \in emitted : acked[i] >= 1
+    /\ LET \* flush reports success only after every accepted event emitted before was
+           \* acknowledged; accepted excludes what counted truncations dropped (events pending
+           \* when the counter rose, at most Capacity for each count)
+           unacked(s) == emBy[s] \ ack1
+           AtLeastOnce == E.ok => /\ emitted \subseteq ack1 \cup covered
+                                  /\ \A s \in Sigs : budget[s] = 0 \/ Cardinality(unacked(s)) <= budget[s]
            \* ... exactly once when no request failed (at the collector or in the client)
            ExactlyOnceWhenClean ==
-               (E.ok /\ ~dirty /\ E.clientfails = 0) => \A i \in emitted : acked[i] = 1
+               (E.ok /\ ~dirty /\ E.clientfails = 0) =>
+                   /\ emitted \cap ack2 = {}
+                   /\ emitted \subseteq ack1 \cup covered
            \* no failed request is left without its resend
            NoPendingRetry == E.ok => \A s \in Sigs : pend[s].st = "none"
            \* bounded liveness: the scripts are finite and the flush timeout is many times the
@@ -152,15 +212,17 @@ Flush ==
                                \o Flag(NoPendingRetry, "NoPendingRetry")
                                \o Flag(FlushCompletes, "FlushCompletes")
     /\ l' = l + 1
-    /\ UNCHANGED <<sc, http1, wantRes, wantHdr, emitted, sigOf, acked, dirty, pend, broken, conns, streak, failedEver>>
+    /\ UNCHANGED <<sc, http1, wantRes, wantHdr, emitted, emBy, ack1, ack2, dirty, pend, broken, conns, streak, failedEver>>
+    /\ UNCHANGED accept
 
 Done ==
     /\ l = Len(Rec) + 1
     /\ PrintT(<<"VERDICTS", ToJson([n |-> Len(verdicts), first |-> SubSeq(verdicts, 1, IF Len(verdicts) > 40 THEN 40 ELSE Len(verdicts))])>>)
     /\ l' = l + 1
-    /\ UNCHANGED <<sc, http1, wantRes, wantHdr, emitted, sigOf, acked, dirty, pend, broken, conns, streak, failedEver, verdicts>>
+    /\ UNCHANGED <<sc, http1, wantRes, wantHdr, emitted, emBy, ack1, ack2, dirty, pend, broken, conns, streak, failedEver, verdicts>>
+    /\ UNCHANGED accept
 
-Next == Reset \/ EmitEv \/ Connect \/ Req \/ Flush \/ Done
+Next == Reset \/ Built \/ EmitEv \/ EmitBurst \/ Trunc \/ Connect \/ Req \/ Flush \/ Done
 
 Spec == Init /\ [][Next]_vars
 
